@@ -43,7 +43,7 @@ MB = ["", "é ", "日本 ", "\U0001F600 "]
 
 
 def plan(tier, seed):
-    n = 6 if tier == "quick" else 150
+    n = 30 if tier == "quick" else 400
     jobs = []
     for layout in LAYOUTS:
         for hi in range(len(HOSTS[layout])):
